@@ -189,6 +189,13 @@ func c15Run(c core.Case, env *core.Env) core.Result {
 			}
 			r.Count("alterations_rejected", 1)
 		}
+		// the negated share: share*G and (q-share)*G have the same x coordinate on secp256k1
+		if neg := new(big.Int).Sub(q, new(big.Int).Mod(sh.Share, q)); neg.Cmp(new(big.Int).Mod(sh.Share, q)) != 0 && neg.Cmp(q) != 0 {
+			if (&vss.Share{Threshold: t, ID: sh.ID, Share: neg}).Verify(ec, t, vs) {
+				r.Fail("share-negated", "share %d negated modulo q verifies", i)
+			}
+			r.Count("alterations_rejected", 1)
+		}
 		// wrong threshold / wrong number of commitments
 		if (&vss.Share{Threshold: t + 1, ID: sh.ID, Share: sh.Share}).Verify(ec, t, vs) {
 			r.Fail("share-threshold", "share with a different threshold verifies")
@@ -200,6 +207,28 @@ func c15Run(c core.Case, env *core.Env) core.Result {
 		if sh.Verify(ec, t, ext) {
 			r.Fail("vs-long", "share verifies against t+2 commitments")
 		}
+	}
+	// a dealer that deals a polynomial of another degree and labels the shares with threshold t: the number of
+	// commitments is the degree bound, so these self-consistent dealings must not verify for threshold t
+	for _, tt := range []int{t - 1, t + 1} {
+		if tt < 1 || tt >= n {
+			continue
+		}
+		vsO, sharesO, err := vss.Create(ec, tt, secret, ids, rand.Reader)
+		if err != nil {
+			continue
+		}
+		bad := 0
+		for _, sh := range sharesO {
+			if (&vss.Share{Threshold: t, ID: sh.ID, Share: sh.Share}).Verify(ec, t, vsO) {
+				bad++
+			}
+		}
+		if bad > 0 {
+			r.Fail("degree-bound", "%d shares of a degree-%d dealing (%d commitments) verify for threshold %d", bad, tt, len(vsO), t)
+		}
+		r.Count("alterations_rejected", int64(len(sharesO)))
+		r.Count("other_degree_dealings", 1)
 	}
 	// altered commitments: each Vs[k] replaced by Vs[k]+G
 	g := crypto.ScalarBaseMult(ec, big1)
